@@ -23,6 +23,7 @@ type Program struct {
 	ByPkg  map[string]*ssa.Package
 	UserFields map[string]string
 	GlobalFuncs map[string]*ssa.Function // package-level func variables initialised to a function
+	GlobalConsts map[string]*ssa.Const   // package-level variables (and struct fields) initialised to constants
 }
 
 func LoadProgram(dir string, tags string) (*Program, error) {
@@ -62,6 +63,7 @@ func LoadProgram(dir string, tags string) (*Program, error) {
 		p.ByPkg[pk.PkgPath] = sp
 	}
 	p.GlobalFuncs = map[string]*ssa.Function{}
+	p.GlobalConsts = map[string]*ssa.Const{}
 	for _, sp := range p.ByPkg {
 		if !strings.HasPrefix(sp.Pkg.Path(), p.Module) {
 			continue
@@ -70,7 +72,18 @@ func LoadProgram(dir string, tags string) (*Program, error) {
 			for _, b := range init.Blocks {
 				for _, ins := range b.Instrs {
 					if s, ok := ins.(*ssa.Store); ok {
+						if fa, ok := s.Addr.(*ssa.FieldAddr); ok {
+							if g, ok := fa.X.(*ssa.Global); ok {
+								if c, ok := s.Val.(*ssa.Const); ok {
+									st := g.Type().(*types.Pointer).Elem().Underlying().(*types.Struct)
+									p.GlobalConsts["glob!"+g.Pkg.Pkg.Path()+"."+g.Name()+"."+st.Field(fa.Field).Name()] = c
+								}
+							}
+						}
 						if g, ok := s.Addr.(*ssa.Global); ok {
+							if c, ok := s.Val.(*ssa.Const); ok {
+								p.GlobalConsts["glob!"+g.Pkg.Pkg.Path()+"."+g.Name()] = c
+							}
 							switch f := s.Val.(type) {
 							case *ssa.Function:
 								p.GlobalFuncs["glob!"+g.Pkg.Pkg.Path()+"."+g.Name()] = f
